@@ -19,6 +19,7 @@ fn main() {
     match prop.as_str() {
         "C12" => props::c12::run(&mut ctx),
         "C04" => props::c04::run(&mut ctx),
+        "C15" => props::c15::run(&mut ctx),
         #[cfg(feature = "ffi")]
         "C19" => props::c19::run(&mut ctx),
         _ => { eprintln!("unknown property {prop}"); std::process::exit(2); }
